@@ -249,13 +249,13 @@ MANIFEST_TEXT = {
     },
     "C17": {
         "technique": "Lean 4 theorems (group evaluation and grouping) + differential correspondence",
-        "text": "Theorems: an either group (>=2 members) is violated iff all members are empty; a botheq group iff some member differs from the first; a singleton is a rule-writing error; two members share a group iff they have the same object scope and rule text, and a group holds all such members; a field registers under the path of its object. Tie: walk-group and flat streams (groups repeated in slices, maps, nested objects, Map and Url).",
+        "text": "Theorems: an either group (>=2 members) is violated iff all members are empty; a botheq group iff some member differs from the first; a singleton is a rule-writing error; two members share a group iff they have the same object scope and rule text, and a group holds all such members; a field registers under the path of its object; C17_independent_objects / C17_independent_clauses — the groups (and clauses) of members that share no (object, rule text) key are exactly the groups of each part on its own: objects in different slice elements, nested objects and map entries never influence each other. Tie: walk-group and flat streams (groups repeated in slices, maps, nested objects, Map and Url).",
         "note": "Trusted: Lean kernel; reflect.DeepEqual modelled for scalars only (composites out of scope); order of group clauses is Go map order (any order accepted).",
     },
     "C18": {
         "technique": "Lean 4 theorems (common dispatch, carrier-independent verdicts for size rules, percent-encoding round trip) + differential correspondence across six carriers",
-        "text": "Theorems: every walker hands a non-empty value to the same rule function with the same text and value; for the eight size rules the verdict is independent of the carrier's object/field names; QueryUnescape(QueryEscape s) = s for every byte string. Tie: stream size sends each (rule, value) through Var, Struct(RM), Struct(tag), Map, Map(interface{}), []Map and Url and judges the implementation's verdict against the spec; flat compares whole strings.",
-        "note": "Trusted: Lean kernel; url.QueryEscape transcribed in the spec; carrier independence of the non-size rules is checked by correspondence only.",
+        "text": "Theorems: every walker hands a non-empty value to the same rule function with the same text and value (C18_struct_dispatch / C18_flat_dispatch); C18_verdict_carrier_indep — for EVERY function of the rule table (all 30), every rule text and value, the function writes a clause under one carrier's object/field names exactly when it does under another's (and asks the same residual question otherwise); for the size rules the verdict is moreover the spec's (C18_size_verdict_carrier_indep); QueryUnescape(QueryEscape s) = s for every byte string. Tie: stream size sends each (rule, value) through Var, Struct(RM), Struct(tag), Map, Map(interface{}), []Map and Url and judges the implementation's verdict against the spec; flat compares whole strings.",
+        "note": "Trusted: Lean kernel; url.QueryEscape transcribed in the spec; the walkers' different notions of 'empty' (Var: length-0 slices; Url: empty string) are part of C03.",
     },
     "C01": {
         "technique": "Lean 4 theorems (case analysis over kinds, exact integer/dyadic arithmetic) + differential correspondence incl. exhaustive 8-bit window",
